@@ -66,6 +66,17 @@ def run_history(case, props=None):
                     out.append(('C09', f'get_cell{(x, y, z)} returned the row of {tuple(row["pos"])}'))
             except Exception as ex:
                 out.append(('C09', f'get_cell{(x, y, z)} on {wk} {W, H, D} raised {type(ex).__name__}'))
+            if len(seen) <= 4:
+                # integers come in several kinds (numpy indices from argwhere, bools): the same cell must come back
+                import numpy as np
+                for conv in (np.int64, np.int32, (bool if max(x, y, z) <= 1 else int)):
+                    try:
+                        row = env.get_cell(conv(x), conv(y), conv(z))
+                        if tuple(row['pos']) != (x, y, z):
+                            out.append(('C09', f'get_cell with {conv.__name__} coordinates {(x, y, z)} returned the row of '
+                                               f'{tuple(row["pos"])}'))
+                    except Exception as ex:
+                        out.append(('C09', f'get_cell with {conv.__name__} coordinates {(x, y, z)} raised {type(ex).__name__}'))
             if len(out) > 5:
                 return out
         outside = [(x, y, z) for x in range(-1, w + 1) for y in range(-1, h + 1) for z in range(-1, d + 1)
@@ -184,6 +195,11 @@ def run_history(case, props=None):
                 elif src == 'const':
                     arg = E.ConstantGenerator(42)
                     vals = [42] * ncells
+                elif src in ('consttuple', 'constfit'):
+                    # a constant is a constant, also when it is a sequence (of any length, the number of cells included)
+                    val = (255, 128, 0) if src == 'consttuple' else tuple(range(ncells))
+                    arg = E.ConstantGenerator(val)
+                    vals = [val] * ncells
                 else:
                     # lookup table of the world's dimensionality
                     if wk == 'line':
@@ -284,6 +300,8 @@ def histories(seed, budget, prop='C09'):
                    rng.randrange(d), rng.randint(0, 6), rng.random() < 0.5, rng.choice(['id', 'tuple', 'comp', 'compfrac', 'compnear']))
     else:
         srcs = ['callable', 'list', 'array', 'const', 'lookup']
+        for s in [x for x in SHAPES if x[1] <= 3 and x[2] <= 3 and x[3] <= 2][::3]:
+            yield ('cells',) + s + ([('add', 'k', 'consttuple'), ('add', 'f', 'constfit'), ('remove', 'k')],)
         for s in [x for x in SHAPES if x[1] <= 3 and x[2] <= 2 and x[3] <= 2]:
             for a, b in itertools.permutations(srcs, 2):
                 yield ('cells',) + s + ([('add', 'p', a), ('mutate', 'p'), ('add', 'q', b), ('mutate', 'q'), ('remove', 'zz'),
